@@ -10,6 +10,10 @@
 // (`access fn field r|w guard held`, `call caller callee held`, then `guardcheck root lock => fields via fns`).
 // Case `unknowns` lists what the extractor could not analyse (fail closed), case `cachemethods` the
 // Lock + defer Unlock shape of packetcache.Cache's exported methods, case `summary` the sizes.
+// Case `chanuse` lists the use sites of unbounded.Channel that follow the discipline of the no-lost-wakeup
+// proof (`chanuse pos fn chan kind wait what`, chanuse.go); one case per channel holds
+// `chanconsumers chan recvGet-sites put-sites => n m`; case `chanimpl` the uses of Channel.Ch inside package
+// unbounded; every use classified `other` gets a case of its own so that each is reported with its witness.
 package main
 
 import (
@@ -34,6 +38,7 @@ type eng struct {
 	facts *Facts
 	edges map[string]bool
 	acc   map[string]bool
+	chanLines map[string]bool
 	// replay state: the edges / facts accepted so far in this case
 	caseEdges [][2]string
 	caseFacts []string
@@ -52,6 +57,13 @@ func (e *eng) ensure() {
 	e.edges = map[string]bool{}
 	for _, ed := range f.Edges {
 		e.edges[ed.From+" "+ed.To] = true
+	}
+	e.chanLines = map[string]bool{}
+	for _, u := range f.ChanUses {
+		e.chanLines[u.line()] = true
+	}
+	for _, u := range f.ChanImpl {
+		e.chanLines["chanimpl"+strings.TrimPrefix(u.line(), "chanuse")] = true
 	}
 	e.acc = map[string]bool{}
 	for _, k := range f.Order {
@@ -107,6 +119,19 @@ func (e *eng) Exec(op []string) string {
 			}
 		}
 		return "absent"
+	case "chanuse", "chanimpl":
+		line := strings.Join(op, " ")
+		if e.chanLines[line] {
+			e.caseFacts = append(e.caseFacts, line)
+			return "1"
+		}
+		return "0"
+	case "chanconsumers":
+		recvs, puts := consumersOf(e.facts.ChanUses, op[1])
+		if listTok(recvs) != op[2] || listTok(puts) != op[3] {
+			return "stale" // not the consumer/producer sites of the current tree
+		}
+		return fmt.Sprintf("%d %d", len(recvs), len(puts))
 	case "count":
 		return fmt.Sprint(e.count(op[1]))
 	}
@@ -145,6 +170,14 @@ func (e *eng) count(what string) int {
 		return len(f.Unknowns)
 	case "loaderrors":
 		return len(f.LoadErrs)
+	case "chanuses":
+		return len(f.ChanUses) + len(f.ChanImpl)
+	case "chanothers":
+		for _, u := range append(append([]ChanUse{}, f.ChanUses...), f.ChanImpl...) {
+			if u.Kind == "other" {
+				n++
+			}
+		}
 	}
 	return n
 }
@@ -280,9 +313,48 @@ func gen(t *common.Trace, ee common.Engine, r *common.Rng, thorough bool) {
 	for _, m := range f.CacheM {
 		do("cachemethod " + m.Name)
 	}
+	// use sites of unbounded.Channel: the disciplined ones in one case, closed by the consumer count per channel
+	t.Case("chanuse")
+	e.Reset()
+	var chans []string
+	for _, u := range f.ChanUses {
+		if u.Kind != "other" {
+			do(u.line())
+			chans = appendUniq(chans, u.Chan)
+		}
+	}
+	sort.Strings(chans)
+	for _, c := range chans {
+		t.Case("chanconsumers:" + c)
+		e.Reset()
+		recvs, puts := consumersOf(f.ChanUses, c)
+		do(fmt.Sprintf("chanconsumers %s %s %s", c, listTok(recvs), listTok(puts)))
+	}
+	t.Case("chanimpl")
+	e.Reset()
+	for _, u := range f.ChanImpl {
+		if u.Kind != "other" {
+			do("chanimpl" + strings.TrimPrefix(u.line(), "chanuse"))
+		}
+	}
+	// ... and every use that leaves the discipline in a case of its own
+	for i, u := range f.ChanUses {
+		if u.Kind == "other" {
+			t.Case(fmt.Sprintf("chanuse:%s:%d", u.Pos, i))
+			e.Reset()
+			do(u.line())
+		}
+	}
+	for i, u := range f.ChanImpl {
+		if u.Kind == "other" {
+			t.Case(fmt.Sprintf("chanimpl:%s:%d", u.Pos, i))
+			e.Reset()
+			do("chanimpl" + strings.TrimPrefix(u.line(), "chanuse"))
+		}
+	}
 	t.Case("summary")
 	e.Reset()
-	for _, w := range []string{"functions", "acquires", "calls", "accesses", "edges", "roots", "violations", "unknowns", "loaderrors"} {
+	for _, w := range []string{"functions", "acquires", "calls", "accesses", "edges", "roots", "violations", "unknowns", "loaderrors", "chanuses", "chanothers"} {
 		do("count " + w)
 		t.Hist[w] = e.count(w) + 1 // (+1: Do counted the op once already under another key; this is the value)
 		t.Hist[w]--
@@ -463,6 +535,29 @@ func emit(leanDir string) {
 	sb.WriteString("end Galene.Generated\n")
 	must(writeIfChanged(filepath.Join(dir, "Accesses.lean"), []byte(sb.String())))
 
+	// ---- ChanUse.lean
+	sb.Reset()
+	sb.WriteString("import GaleneVerif.Model.ChanUse\n")
+	sb.WriteString("/- GENERATED by harness/cmd/locks (extract/run.sh) from the source of $VERIF_REPO on every run; do not edit. -/\n")
+	sb.WriteString("namespace Galene.Generated\nopen Galene.ChanUse\n\n")
+	useList := func(us []ChanUse) string {
+		var ls []string
+		for _, u := range us {
+			ls = append(ls, fmt.Sprintf("{ pos := %s, fn := %s, chan := %s, kind := .%s, wait := %s,\n    what := %s }",
+				leanStr(u.Pos), leanStr(u.Fn), leanStr(u.Chan), u.Kind, leanStr(u.Wait), leanStr(u.What)))
+		}
+		if len(ls) == 0 {
+			return "[]"
+		}
+		return "[\n  " + strings.Join(ls, ",\n  ") + "]"
+	}
+	sb.WriteString("/-- EVERY expression outside package unbounded whose type is (a pointer to) unbounded.Channel[T], classified by\nthe context it occurs in (harness/cmd/locks/chanuse.go); whatever is not positively recognised is `other` -/\n")
+	sb.WriteString("def chanUses : List Use := " + useList(f.ChanUses) + "\n\n")
+	sb.WriteString("/-- every use of the field Channel.Ch inside package unbounded: `new` = `Ch: make(chan struct{}, 1)`,\n`put` = the non-blocking send `select { case ch.Ch <- struct{}{}: default: }`, `other` = anything else -/\n")
+	sb.WriteString("def chanImplUses : List Use := " + useList(f.ChanImpl) + "\n\n")
+	sb.WriteString("end Galene.Generated\n")
+	must(writeIfChanged(filepath.Join(dir, "ChanUse.lean"), []byte(sb.String())))
+
 	// ---- facts.json for the evidence
 	if root := os.Getenv("VERIF_ROOT"); root != "" {
 		os.MkdirAll(filepath.Join(root, ".build"), 0755)
@@ -472,8 +567,8 @@ func emit(leanDir string) {
 			out.Close()
 		}
 	}
-	fmt.Printf("extracted: %d functions, %d edges, cycles %s, %d guard violations, %d unknowns, %d type errors\n",
-		len(f.Order), len(f.Edges), scc, len(f.Viol), len(f.Unknowns), len(f.LoadErrs))
+	fmt.Printf("extracted: %d functions, %d edges, cycles %s, %d guard violations, %d unknowns, %d type errors, %d+%d channel uses\n",
+		len(f.Order), len(f.Edges), scc, len(f.Viol), len(f.Unknowns), len(f.LoadErrs), len(f.ChanUses), len(f.ChanImpl))
 }
 
 // writeIfChanged rewrites a generated file only when its content changes.
@@ -499,8 +594,11 @@ func dumpJSON(f *Facts, w *os.File) {
 		Unknowns []string
 		CacheM   []MethodFact
 		LoadErrs []string
+		ChanUses []ChanUse
+		ChanImpl []ChanUse
 	}
-	o := out{Edges: f.Edges, Viol: f.Viol, Unknowns: f.Unknowns, CacheM: f.CacheM, LoadErrs: f.LoadErrs}
+	o := out{Edges: f.Edges, Viol: f.Viol, Unknowns: f.Unknowns, CacheM: f.CacheM, LoadErrs: f.LoadErrs,
+		ChanUses: f.ChanUses, ChanImpl: f.ChanImpl}
 	for _, k := range f.Order {
 		fn := f.Fns[k]
 		if factPackages[fn.Pkg] && (len(fn.Acquires) > 0 || len(fn.Accesses) > 0 || len(fn.Unknowns) > 0) {
@@ -548,5 +646,11 @@ func dump(f *Facts, w *os.File) {
 	}
 	for _, m := range f.CacheM {
 		fmt.Fprintf(w, "CACHEMETHOD %s %v\n", m.Name, m.Locked)
+	}
+	for _, u := range f.ChanUses {
+		fmt.Fprintf(w, "CHANUSE %s %s %s %s %s: %s\n", u.Pos, u.Fn, u.Chan, u.Kind, u.Wait, u.What)
+	}
+	for _, u := range f.ChanImpl {
+		fmt.Fprintf(w, "CHANIMPL %s %s %s %s %s: %s\n", u.Pos, u.Fn, u.Chan, u.Kind, u.Wait, u.What)
 	}
 }
